@@ -45,6 +45,7 @@ PROPS["C01"] = {
         plain("regress", "packetmap", "TestVerif_C01_Regress_.*"),
         rapid("packetmap-model", "packetmap", "TestVerif_C01_PacketmapModel", 1500, 40000),
         rapid("write-composition", "rtpconn", "TestVerif_C01_WriteComposition", 600, 15000),
+        rapid("shared-writer", "rtpconn", "TestVerif_C01_SharedWriter", 300, 3000),
     ],
     "assumptions": [
         "arrivals stay within 8000 packets of the head (strictly inside the 8192 re-sync window the property quantifies over)",
@@ -88,6 +89,7 @@ PROPS["C05"] = {
         rapid("cache-model", "packetcache", "TestVerif_C05_CacheModel", 2000, 10000, quick_shards=4),
         rapid("concurrent", "packetcache", "TestVerif_C05_Concurrent", 12, 60, race=True, shards=8),
         rapid("writer-path", "rtpconn", "TestVerif_C05_WriterPath", 100, 600),
+        rapid("shared-writer", "rtpconn", "TestVerif_C01_SharedWriter", 300, 3000),
     ],
     "technique": "model-based stateful property testing (rapid) + concurrent readers with self-validating content under the race detector",
     "assumptions": ["callers pass a result buffer of BufSize bytes (every caller in galene does)", "packet sizes 1..1504, capacities 1..65535"],
